@@ -278,6 +278,28 @@ class Run(object):
     def op_ortho(self, rec):
         return self._op_sweep("ortho", rec)
 
+    # ------------------------------------------------------------------ a consumer of the sweep: norm() (C03 retry path)
+    def op_norm2(self, rec):
+        """TT.norm(p=2) right-orthonormalises a copy and reads the norm off the first core: the value is only right
+        if the internal sweep (incl. its gesvd retry) preserved the tensor; the receiver must not change."""
+        before = self.snap
+        t = self.t
+        if before.meta[3][0] != 1 or before.meta[3][-1] != 1:
+            return "skip"
+        out, exc = self._call(rec, lambda: t.norm(p=2))
+        if exc is not None:
+            if self._legal_raise(exc, rec):
+                self.raised_ok += 1
+                return "raised"
+            self._fail("C03", "norm", "raised", {"exception": repr(exc)[:300]}, rec)
+        val = float(np.real(out))
+        if not (abs(val - before.norm) <= 1e-9 * before.norm + before.floor()):
+            self._fail("C03", "norm", "value", {"norm": val, "model": before.norm}, rec)
+        now = M.Snapshot(t)
+        if now.meta != before.meta or before.differs(now.dense, TOL_SAME)[0]:
+            self._fail("C03", "norm", "receiver-changed", {"before": before.meta, "after": now.meta}, rec)
+        return "ok"
+
     # ------------------------------------------------------------------ (re)construction with truncation (C04)
     def _op_construct(self, op, rec):
         a = rec.get("args", {})
@@ -543,7 +565,7 @@ class Run(object):
 # ====================================================================== generation
 
 FOCUS = {
-    "C03": {"sweep": 8, "trunc": 2, "construct": 1, "helper": 0, "svd": 1},
+    "C03": {"sweep": 8, "trunc": 2, "construct": 1, "helper": 0, "svd": 1, "norm": 1},
     "C04": {"sweep": 2, "trunc": 7, "construct": 5, "helper": 3, "svd": 0},
     "C05": {"sweep": 3, "trunc": 1, "construct": 0, "helper": 0, "svd": 10},
 }
@@ -638,6 +660,8 @@ def _choose(rnd, run, cfg, prop):
         if op == "ortho_left" and rnd.random() < 0.1:
             a["progress"] = True
         rec = {"op": op, "args": a}
+    elif g == "norm":
+        rec = {"op": "norm2", "args": {}}
     elif g == "construct":
         op = rnd.choice(("tt_from_array", "tt_from_array", "tt_from_cores"))
         a = {}
